@@ -42,10 +42,11 @@ PROPS = {
         level="exploration",
         technique="generated multi-thread programs (rapidcheck tapes) against a server and a client context on loopback sockets with both I/O loops in their own threads and re-entering callbacks, built and run under ThreadSanitizer; lock-state invariants and a per-case watchdog (20 s; a program takes ~20 ms) as deadlock oracle",
         level_text="Programs of 2..8 application threads with 3..24 operations each (send, observe, async, notify, session create/release, resource add/delete, cache, ping) plus two I/O threads; the operating system owns the schedule.",
-        level_note="Trusted base: ThreadSanitizer (happens-before race detection does not need the racy accesses to coincide, only to be unordered), the lock-state probes in props/C13.cc. One TSan suppression (props/tsan.supp) for the recorded known finding. The autotools build is not exercised (its tools need network-fetched macros here); the CMake build is the one every check rebuilds. A race on a path no generated program reaches is not found.",
-        quick=rc(8, 500),
-        thorough=rc(12, 8000),
+        level_note="Trusted base: ThreadSanitizer (happens-before race detection does not need the racy accesses to coincide, only to be unordered), the lock-state probes in props/C13.cc. One TSan suppression (props/tsan.supp) for the recorded known finding. Both build systems are exercised: the CMake build (its defaults) and, for part of the workers and all replays, the autotools build with its own defaults (thread safe + recursive lock detection), both under ThreadSanitizer. A race on a path no generated program reaches is not found.",
+        quick=rc(6, 500) + rc(4, 500, alt=True),
+        thorough=rc(8, 8000) + rc(6, 8000, alt=True),
         flavour="tsan",
+        alt_flavour="tsan-at",
         case_timeout=20,
         min_repro=1,
     ),
